@@ -277,6 +277,11 @@ Additions for nextflow/scripts/batchie.py (main() and the run_* command builders
                       cfg["tail_dup"]: the statements that follow it become the tail of both branches (`if c: A else: B; rest` is
                       `if c then [A; rest] else [B; rest]`), so that a variable assigned on every path that does not raise
                       (`if m == 'a': f = g elif m == 'b': f = h else: raise ...`) is bound in the tail
+  cfg["list_elem_type"]  T: every element of a NON-EMPTY list literal `[a, b, ...]` of the function is coerced to T (through
+                      cfg["coerce"]; a value of type U where T = `opt U` is `Some`; anything that does not fit is refused) and the
+                      literal has type `list T` - for a list whose items the source builds from values of several types (the
+                      words of a command line: literals, paths, names).  Without the key a list literal has the type of its
+                      first element and the others are not coerced, as before.
 """
 import ast
 
@@ -541,6 +546,14 @@ class Tr:
         if isinstance(e, ast.List):
             if not e.elts:
                 return "[]", EMPTY_T
+            if self.cfg.get("list_elem_type") is not None:
+                # cfg["list_elem_type"]: every element of a list literal is coerced to the declared element type
+                et = parse_type(self.cfg["list_elem_type"])
+                items = []
+                for x in e.elts:
+                    xv, xt = self.expr(x, env, hoist)
+                    items.append(self.need(xv, xt, et, hoist))
+                return "[" + "; ".join(items) + "]", ("list", et)
             parts = [self.expr(x, env, hoist) for x in e.elts]
             return "[" + "; ".join(p[0] for p in parts) + "]", ("list", parts[0][1])
         if isinstance(e, ast.Dict) and not e.keys:
